@@ -8,7 +8,7 @@ from checks.common import absorb, replay_generic
 EVIDENCE = dict(
     level="model_checking",
     rule="cases = every document TLC builds from the 9-letter alphabet {H1,H2,H3,P normal,P > max,L,T,I,new page} up to "
-         "MaxLen letters in two page-numbering schemes (exhaustive), every document of <= 4 letters over {H1, one-word P, "
+         "MaxLen letters in two page-numbering schemes (exhaustive; quick: gapped numbering for <= 3 letters), every document of <= 4 letters over {H1, one-word P, "
          "normal P, L(3), L(70), new page} (list introductions, oversized lists), plus -simulate documents over the wide alphabet "
          "(levels 1-6, twelve paragraph size classes, images without description, L(70), near-full list, up to 12 letters); "
          "every document of <= 3 (thorough 4) letters over the boundary alphabet {H1, P > max, P short (< min), P near-full, "
@@ -17,7 +17,11 @@ EVIDENCE = dict(
          "model.Document and chunked by rag.ChunkDocument, ChunkDocumentWithConfig (all presets + a 300/40 custom one), "
          "NewChunker().Chunk and NewChunkerWithConfig (600/50 and 240/40); non-trivial = document with >= 2 heading levels or a "
          "paragraph at/above the maximum or nearly filling a chunk; distinct by "
-         "element sequence + page numbers. Random larger documents are validated only through ChunkingTrace.tla.",
+         "element sequence + page numbers. Random larger documents are validated only through ChunkingTrace.tla. "
+         "PDF entry point: every document of <= 4 (thorough 5) letters over {H 18 pt, H 14 pt, P 3 lines, P 6 lines, L(3) "
+         "bulleted/numbered, new page} plus -simulate documents (<= 3 pages, <= 5 elements per page) is rendered as positioned "
+         "text (pdfdoc.BuildSimple) and read back through tabula.Open(pdf).Document() (page elements), .Chunks() and "
+         ".ToMarkdown(); each of the three observations is judged by the same contract.",
     assumptions=["content identity is observed through unique word tokens scanned in chunk texts after removing whitespace",
                  "rag.Chunker (layout based) is only given documents its input can represent without loss: headings, "
                  "paragraphs, lists, per page in that order",
@@ -43,6 +47,13 @@ NOTES = """Interpretation choices (soundness first):
   from the maximum and minimum chunk size of the configuration under test, padding the last token (never a word of its own).
   ChunkPack.tla is the byte-size model of the layout chunker's accumulate/flush/orphan-merge loop; its "drop" variant (a short
   pending piece that does not fit into the previous chunk is discarded) is the negative control for that class of change.
+* PDF entry point: only conservation, order and metadata are asserted - every word token exactly once and in document order
+  in Document().Pages[*].Elements (each element = one "chunk" on its page; elements without any word, e.g. a stray marker, are
+  not judged), in the chunk texts and in the Markdown (one "chunk"); chunk indices/ids/totals; page ranges.  Whether the layout
+  heuristics call a line a heading or a list item is NOT asserted.  Section paths follow the weak rule of the contract (minor =
+  0): every reported entry must be (the text of) a heading line of the document that does not come after the chunk's content;
+  a path may omit headings.  Documents stay within what the heuristics can carry: single column, 14 pt line pitch, >= 26 pt
+  between blocks, headings of one line at 18/14 pt, body at 10 pt, <= 5 blocks per page, <= 3 pages.
 * Page numbers: model.Page.Number is the page the content came from; documents are built both by assigning Document.Pages
   and through Document.AddPage with the numbers preset (as extractor.go does)."""
 
@@ -121,9 +132,16 @@ def run(ctx):
         # R2 emission runs meanwhile
         gen = ctx.tlc("ChunkingMC", "Chunking_gen_quick.cfg" if q else "Chunking_gen_thorough.cfg", workers=1,
                       collect=True, count=False, timeout=3000)
+        if q:   # quick: page numbers with gaps (3, 5, 7) only for documents of <= 3 letters
+            gap = ctx.tlc("ChunkingMC", "Chunking_gen_quick_gap.cfg", workers=1, collect=True, count=False, timeout=3000)
+            gen["cases"] += gap["cases"]
         lists = ctx.tlc("ChunkingMC", "Chunking_gen_lists.cfg", workers=1, collect=True, count=False, timeout=3000)
         bound = ctx.tlc("ChunkingMC", "Chunking_gen_bound_quick.cfg" if q else "Chunking_gen_bound_thorough.cfg", workers=1,
                         collect=True, count=False, timeout=3000)
+        pdfgen = ctx.tlc("ChunkingMC", "Chunking_gen_pdf_quick.cfg" if q else "Chunking_gen_pdf_thorough.cfg", workers=1,
+                         collect=True, count=False, timeout=3000)
+        pdfsim = ctx.tlc("ChunkingMC", "Chunking_sim_pdf.cfg", workers=1, simulate=60 if q else 1500, depth=13,
+                         collect=True, count=False, timeout=3000)
         sim = ctx.tlc("ChunkingMC", "Chunking_sim.cfg", workers=1, simulate=200 if q else 4000, depth=13,
                       collect=True, count=False, timeout=3000)
         for f, (_, _, kw) in zip(futs, jobs):
@@ -152,6 +170,25 @@ def run(ctx):
         ctx.sample({"doc": c["doc"], "pages": c["pages"], "expected_paths": [e["path"] for e in c["els"]], "layout_chunker": c["lnorm"]})
     res = absorb(ctx, ctx.run_driver(["c12", "replay"], cases))
     r2events = [e for r in res if r["ok"] for e in (r.get("events") or [])]
+    # the PDF entry point: documents over the alphabet layout heuristics can carry, 1-3 pages, <= 5 elements per page,
+    # through tabula.Open(pdf).Document() / Chunks() / ToMarkdown()
+    seen, pdfcases = set(), []
+    for c in pdfgen["cases"] + pdfsim["cases"]:
+        k = json.dumps(c["doc"])
+        per = {}
+        for e in c["doc"]:
+            per[e["pg"]] = per.get(e["pg"], 0) + 1
+        if k in seen or len(c["pages"]) > 3 or any(v > 5 for v in per.values()):
+            continue
+        seen.add(k)
+        c["tm"] = 12 if q else 25
+        pdfcases.append(c)
+    if not pdfcases:
+        raise vlib.MachineryError("TLC emitted no PDF documents")
+    ctx.extra["cases_pdf"] = len(pdfcases)
+    ctx.sample({"pdf_doc": pdfcases[len(pdfcases) // 2]["doc"], "pages": pdfcases[len(pdfcases) // 2]["pages"]})
+    pres = absorb(ctx, ctx.run_driver(["c12", "pdf"], pdfcases), label="pdf")
+    r2events += [e for r in pres if r["ok"] for e in (r.get("events") or [])]
     # R3: documents TLC did not generate
     nreq, ndoc, ln = (16, 3, 30) if q else (64, 12, 40)
     rec = ctx.run_driver(["c12", "record"], [{"n": ndoc, "len": ln} for _ in range(nreq)])
@@ -193,6 +230,8 @@ def replay(ctx, rp):
     (driver mode tracecase) and judged by ChunkingTrace again."""
     items = [r for r in [rp.get("replay")] + list(rp.get("more") or []) if isinstance(r, dict) and r.get("case")]
     traced = [r["case"] for r in items if r.get("via") == "tracecase"]
+    if items and items[0].get("via") == "pdf":
+        return replay_generic(ctx, rp, ["c12", "pdf"])
     if not traced:
         return replay_generic(ctx, rp, ["c12", "replay"])
     res = ctx.run_driver(["c12", "tracecase"], traced)
